@@ -178,6 +178,15 @@ def dead_survivors(tr):
 
 # ------------------------------------------------------------------------------------------------ abstraction
 
+def event_id_of(correlation_id):
+    """the "long form" of a function call (rpcmessage:invoke[.waitForTaskToken]) sends its request under the event's id
+    plus a suffix; replies and task time-outs come back under that correlation id"""
+    for suffix in (".invoke", ".waitForTaskToken"):
+        if isinstance(correlation_id, str) and correlation_id.endswith(suffix):
+            return correlation_id[:-len(suffix)]
+    return correlation_id
+
+
 def slot_kind(x, eid, cancellers):
     if isinstance(x, str) and x in MARK:
         k = MARK[x]
@@ -303,7 +312,7 @@ class Abstraction(object):
                 else:
                     trig, kind = self.thread(stack), "event"
             elif f["cid"] is not None:                       # a reply
-                mid = f["cid"]
+                mid = event_id_of(f["cid"])
                 body = self.tr.bodies.get(mid)
                 if body is None:
                     return None
@@ -326,7 +335,7 @@ class Abstraction(object):
                     trig = self.thread(stack)
                     kind = "deferred" if DELEGATES[t["name"]] == "task" else "launch"
             elif t.get("name") == "on_timeout":
-                mid = t.get("id")
+                mid = event_id_of(t.get("id"))
                 body = self.tr.bodies.get(mid)
                 if body is None:
                     return None
